@@ -57,7 +57,7 @@ def level2():
     return out
 
 
-L2_SMALL = ["uint256[][]", "(uint256,bytes)[]", "(uint256[],bytes)", "bytes[][2]", "(bytes,(uint256,bytes))"]
+L2_SMALL = ["uint256[][]", "(uint256,bytes)[]", "(uint256[],bytes)", "bytes[][2]", "(bytes,(uint256,bytes))", "(uint256,bytes)[2][]", "(uint256)[][2]", "(uint256,uint256)[2][3]"]
 
 
 def level3():
@@ -317,11 +317,15 @@ def strip_names(items):
 def build_calldata(types, config):
     from halmos.calldata import FunctionInfo, mk_calldata
 
+    from halmos.calldata import get_abi
+
     sig = f"f({','.join(types)})"
-    abi = {sig: e2e.abi_of(sig)}
+    item = e2e.abi_of(sig)
     config = dict(config)
     if config.pop("_names", None) == "unnamed":
-        strip_names(abi[sig]["inputs"])
+        strip_names(item["inputs"])
+    # the signature -> ABI item table is built by halmos from the artefact's ABI list, as for a compiled contract
+    abi = get_abi({"abi": [item]})
     info = FunctionInfo("C", "f", sig, f"{e2e.sel(sig):08x}")
     args = e2e.mk_config(config)
     cd, dyn = mk_calldata(abi, info, args)
